@@ -557,3 +557,27 @@ def c18_last_row_or_column_reference(w, v):
     return v['sig'].startswith('escape:InvalidRangeName:') and \
         bool(re.search(r'XFD|1048576', text, re.I))
 
+
+@matcher('c08_name_of_blank_cell_input')
+def c08_name_of_blank_cell_input(w, v):
+    """compile() with a defined name among the inputs whose target cell is
+    unpopulated: the blank filler node of that cell carries a default with
+    initial distance 0, the value handed down by the name never replaces it,
+    and outputs that depend on the cell are reported unreachable."""
+    if not v['sig'].startswith('compile-raised:ValueError'):
+        return False
+    if 'Unreachable output-targets' not in str(w.get('observed', '')):
+        return False
+    case = w.get('case') or {}
+    desc = case.get('desc')
+    if not desc:
+        return False
+    from .ref import workbook as rw
+    ev = rw.Evaluator(desc)
+    for kind, key in case.get('I') or ():
+        if kind == 'name':
+            node = desc['names'].get(key[0])
+            if node and node[0] == 'cell' and not ev.populated(tuple(node[1:5])):
+                return True
+    return False
+
